@@ -2,7 +2,7 @@
    [vm_compute] evaluation inside coqc run exactly the same function.
    A case is a list of numbers; the first is the case kind. *)
 From Coq Require Import NArith List Bool.
-From PDB Require Import Gen.Consts Model.IndexPage Model.Pipeline Model.Meta Model.Migrate Model.ValueTable Model.MultiTree Model.BTreeIter Model.BTreeCheck Model.Wal Model.WalCodec Model.StorageCheck Model.Lock Model.Readers.
+From PDB Require Import Gen.Consts Model.IndexPage Model.Pipeline Model.Meta Model.Migrate Model.ValueTable Model.MultiTree Model.BTreeIter Model.BTreeCheck Model.Wal Model.WalCodec Model.StorageCheck Model.Lock Model.Readers Model.TableAlloc.
 Import ListNotations.
 Open Scope N_scope.
 
@@ -499,6 +499,28 @@ Definition run_c14 (l : list N) : list N :=
   | _ => err_marker
   end.
 
+(* ---- kind 114: allocator trace. 114 nops op* ; op: 1 k (a value of k slots is stored) | 2 j (the j-th live
+   value, oldest first, is removed). Output after every op: filled, free head, number of slots, (class, next)* ---- *)
+Definition enc_slot (s : rslot) : list N :=
+  match s with RFree n => [0; n] | RHead n => [1; n] | RPart n => [2; n] | RSize => [3; 0] | RBad => [4; 0] end.
+Definition enc_dump (d : tdump) : list N :=
+  filled d :: free_head d :: N.of_nat (length (slots d)) :: flat_map enc_slot (slots d).
+Fixpoint alloc_trace (fuel : nat) (l : list N) (st : tdump * list (list N)) : list N :=
+  match fuel with
+  | O => []
+  | S f =>
+      match l with
+      | 1 :: k :: r => let st' := astep st (AStore (N.to_nat k - 1)) in enc_dump (fst st') ++ alloc_trace f r st'
+      | 2 :: j :: r => let st' := astep st (ARemove (N.to_nat j)) in enc_dump (fst st') ++ alloc_trace f r st'
+      | _ => []
+      end
+  end.
+Definition run_c14_alloc (l : list N) : list N :=
+  match l with
+  | n :: rest => alloc_trace (N.to_nat n) rest (empty_table, [])
+  | _ => err_marker
+  end.
+
 (* ---- kind 18: lock protocol. 18 n op* ; op: 1 h open | 2 h drop | 3 h kill | 4 h c write.
    Output: one result per op, 99, the live handles, 98, the content ---- *)
 Fixpoint parse_lops (fuel : nat) (l : list N) : list lop :=
@@ -553,6 +575,7 @@ Definition dispatch (l : list N) : list N :=
   | 9 :: rest => run_c09 rest
   | 13 :: rest => run_c13 rest
   | 14 :: rest => run_c14 rest
+  | 114 :: rest => run_c14_alloc rest
   | 5 :: rest => run_c05 rest
   | 18 :: rest => run_c18 rest
   | 12 :: rest => run_c12 rest
